@@ -1,6 +1,8 @@
 package rtp
 
 import (
+	"bufio"
+	"bytes"
 	"github.com/cnotch/ipchub/av/codec"
 	"github.com/cnotch/ipchub/zzverif/symapi"
 )
@@ -157,8 +159,13 @@ func VerifH264Fu() {
 	dp := verifNewH264(w)
 	seq := symapi.Uint16("seq")
 	ts := symapi.Uint32("ts")
+	sent := make([][]byte, len(frags))
 	for i, fr := range frags {
+		sent[i] = verifCopy(fr)
 		dp.Depacketize(verifPkt(fr, seq+uint16(i), ts))
+	}
+	for i := range frags { // the same packet objects sit in the consumers' queues and the GOP cache
+		symapi.Assert(verifEqBytes(frags[i], sent[i]), "published-packet-not-modified-by-reassembly")
 	}
 	dp.Depacketize(verifPkt(next, seq+uint16(len(frags)), ts+3000))
 	symapi.Assert(len(w.frames) == 2, "fu-frame-count")
@@ -308,6 +315,10 @@ func VerifH265FuLoss() {
 	if swapAt > 0 {
 		order[swapAt-1], order[swapAt] = order[swapAt], order[swapAt-1]
 	}
+	sent := make([][]byte, len(frags))
+	for i := range frags {
+		sent[i] = verifCopy(frags[i])
+	}
 	for _, i := range order {
 		if symapi.Choose("drop"+string(rune('0'+i)), 2) == 1 {
 			dropped++
@@ -316,6 +327,9 @@ func VerifH265FuLoss() {
 		dp.Depacketize(verifPkt(frags[i], seq+uint16(i), ts))
 	}
 	dp.Depacketize(verifPkt(next, seq+uint16(len(frags)), ts+3000))
+	for i := range frags { // the same packet objects sit in the consumers' queues and the GOP cache
+		symapi.Assert(verifEqBytes(frags[i], sent[i]), "published-packet-not-modified-by-reassembly")
+	}
 	for _, fr := range w.frames {
 		symapi.Assert(verifEqBytes(fr.Payload, nal) || verifEqBytes(fr.Payload, next), "fuloss-no-truncated-or-spliced-unit")
 	}
@@ -441,5 +455,46 @@ func VerifPtsAcrossSenderReports() {
 		wantBack := -int64(float64(back) * unit)
 		symapi.Assert(d >= wantBack-1 && d <= wantBack+1, "earlier-presentation-time-of-a-reordered-picture-equals-the-rtp-difference")
 	}
+	symapi.Reach("end")
+}
+
+// VerifWireHeaderVariants (C06): an interleaved frame as a publisher may legally send it -
+// 0..2 CSRC entries, an optional header extension of 0..2 words, CSRC and opaque extension bytes symbolic -
+// read by ReadPacket and depacketized: sequence number, time stamp and the NAL are those of
+// the packet; CSRC entries and header extension never leak into the access unit.
+func VerifWireHeaderVariants() {
+	cc := symapi.IntRange("cc", 0, 2)
+	ext := symapi.Bool("x")
+	xw := 0
+	if ext {
+		xw = symapi.IntRange("xw", 0, 2)
+	}
+	seq := symapi.Uint16("seq")
+	ts := symapi.Uint32("ts")
+	b := symapi.Bytes("nal", 3)
+	nal := []byte{0x65, b[0], b[1], b[2]}
+	data := []byte{0x80 | byte(cc), 96, byte(seq >> 8), byte(seq), byte(ts >> 24), byte(ts >> 16), byte(ts >> 8), byte(ts), 1, 2, 3, 4}
+	data = append(data, symapi.Bytes("csrc", 4*cc)...)
+	if ext {
+		data[0] |= 0x10
+		if symapi.Bool("oneByteElements") { // RFC 8285 one-byte elements: id 1, one data byte, padding
+			data = append(data, 0xBE, 0xDE, 0, byte(xw))
+			for k := 0; k < xw; k++ {
+				data = append(data, 0x10, symapi.Byte("xval"), 0, 0)
+			}
+		} else { // an opaque profile: the extension words are arbitrary
+			data = append(data, 0xAB, 0xAC, 0, byte(xw))
+			data = append(data, symapi.Bytes("xdata", 4*xw)...)
+		}
+	}
+	data = append(data, nal...)
+	frame := append([]byte{'$', 0, byte(len(data) >> 8), byte(len(data))}, data...)
+	p, err := ReadPacket(bufio.NewReaderSize(bytes.NewReader(frame), 16), []int{0, 1, 2, 3})
+	symapi.Assert(err == nil && p != nil, "legal-rtp-header-accepted")
+	symapi.Assert(p.SequenceNumber == seq && p.Timestamp == ts, "sequence-and-timestamp-of-the-packet")
+	symapi.Assert(verifEqBytes(p.Payload(), nal), "payload-starts-after-csrc-list-and-header-extension")
+	w := &verifRecWriter{}
+	verifNewH264(w).Depacketize(p)
+	symapi.Assert(len(w.frames) == 1 && verifEqBytes(w.frames[0].Payload, nal), "access-unit-is-the-nal-sent")
 	symapi.Reach("end")
 }
